@@ -29,6 +29,9 @@ type Case struct {
 	Seed   uint64 `json:"seed"`
 	Ops    []int  `json:"ops"`    // one entry per Stop caller: launched once that many points were released after Start returned (-1: once the source has ended by itself)
 	Silent bool   `json:"silent"` // abaco: the hardware stops sending right after Start (the reader gives up after 5 s)
+	// a history of calls through the RPC entry points instead of a life-cycle trace:
+	// "start:triangle" "start:simpulse" "start:erroring" "selfend" (wait until the running source has ended by itself) "stop"
+	Rpc []string `json:"rpc,omitempty"`
 }
 
 var points = []string{"start:starting", "start:sampled", "start:channels", "start:prepared", "start:activated",
@@ -314,7 +317,151 @@ func runOnce(c Case, watchdog time.Duration) (outcome, error) {
 	return out, nil
 }
 
+// ---- histories through SourceControl.Start / Stop (in process, no socket) ----
+
+type rpcOutcome struct {
+	Classes []string `json:"classes"`
+	Hung    bool     `json:"hung"`
+	Flag    bool     `json:"server_flag"`
+	Active  bool     `json:"really_active"`
+}
+
+func runRpc(c Case, limit time.Duration) rpcOutcome {
+	var out rpcOutcome
+	dastard.VerifC10Setup()
+	dastard.VerifSetPointHook(nil)
+	sc := dastard.VerifC11NewSourceControl(4, 16)
+	var okb bool
+	sc.ConfigureTriangleSource(&dastard.TriangleSourceConfig{Nchan: 2, SampleRate: 10000, Min: 100, Max: 110}, &okb)
+	sc.ConfigureSimPulseSource(&dastard.SimPulseSourceConfig{Nchan: 2, SampleRate: 10000, Pedestal: 1000, Amplitudes: []float64{5000}, Nsamp: 20}, &okb)
+	call := func(f func() error) (string, bool) {
+		done := make(chan error, 1)
+		go func() { done <- f() }()
+		select {
+		case err := <-done:
+			if err == nil {
+				return "ok", true
+			}
+			return "err", true
+		case <-time.After(limit):
+			return "", false
+		}
+	}
+	for _, o := range c.Rpc {
+		var cls string
+		ok := true
+		switch {
+		case strings.HasPrefix(o, "start:"):
+			name := map[string]string{"triangle": "TRIANGLESOURCE", "simpulse": "SIMPULSESOURCE", "erroring": "ERRORINGSOURCE"}[o[6:]]
+			cls, ok = call(func() error { return sc.Start(&name, &okb) })
+		case o == "stop":
+			d := ""
+			cls, ok = call(func() error { return sc.Stop(&d, &okb) })
+		case o == "selfend":
+			// only a source of a self-ending kind ends; wait until its run is over (the server is not told)
+			if a := sc.VerifActiveAny(); a != nil && sc.VerifActiveKind() == "erroring" {
+				_, ok = call(func() error { a.RunDoneWait(); return nil })
+			}
+			continue
+		default:
+			continue
+		}
+		if !ok {
+			out.Hung = true
+			break
+		}
+		out.Classes = append(out.Classes, cls)
+	}
+	out.Flag = sc.VerifIsSourceActive()
+	if a := sc.VerifActiveAny(); a != nil {
+		if v, ok := stateOf(a, limit); ok {
+			out.Active = v == dastard.Active
+		}
+	}
+	if !out.Hung && out.Flag {
+		d := ""
+		call(func() error { return sc.Stop(&d, &okb) })
+	} else if !out.Hung && out.Active {
+		if a := sc.VerifActiveAny(); a != nil {
+			call(func() error { return a.Stop() })
+		}
+	}
+	return out
+}
+
+func renderRpc(c Case, out rpcOutcome, crashed bool) string {
+	var ops, cls []string
+	for _, o := range c.Rpc {
+		switch o {
+		case "start:triangle":
+			ops = append(ops, "RStart RTriangle")
+		case "start:simpulse":
+			ops = append(ops, "RStart RSimPulse")
+		case "start:erroring":
+			ops = append(ops, "RStart RErroring")
+		case "selfend":
+			ops = append(ops, "RSelfEnd")
+		case "stop":
+			ops = append(ops, "RStop")
+		}
+	}
+	for _, x := range out.Classes {
+		if x == "ok" {
+			cls = append(cls, "ROk")
+		} else {
+			cls = append(cls, "RErr")
+		}
+	}
+	return fmt.Sprintf("mkrpc %s %s %s %s %s", lib.List(ops), lib.List(cls), lib.B(crashed), lib.B(out.Flag), lib.B(out.Active))
+}
+
+func runRpcCase(c Case) (lib.Result, error) {
+	res := lib.Result{ID: c.ID, Hash: lib.Hash(c.Rpc)}
+	out := runRpc(c, 4*time.Second)
+	if out.Hung {
+		out = runRpc(c, 20*time.Second) // inconclusive first: once more with a five times longer limit
+	}
+	res.Term = renderRpc(c, out, false)
+	res.Impl = out
+	tags := map[string]bool{"rpc-history": true}
+	selfEnded, stopAfterSelfEnd, restartAfterStop, lastStop := false, false, false, false
+	for _, o := range c.Rpc {
+		switch {
+		case o == "selfend":
+			selfEnded = true
+		case o == "stop":
+			if selfEnded {
+				stopAfterSelfEnd = true
+			}
+			lastStop, selfEnded = true, false
+		case strings.HasPrefix(o, "start:"):
+			if lastStop {
+				restartAfterStop = true
+			}
+			lastStop, selfEnded = false, false
+		}
+	}
+	if stopAfterSelfEnd {
+		tags["rpc:stop-after-self-end"] = true
+	}
+	if restartAfterStop {
+		tags["rpc:restart-after-stop"] = true
+	}
+	if out.Hung {
+		tags["watchdog-expired-twice"] = true
+	}
+	res.NonTrivial = stopAfterSelfEnd || restartAfterStop
+	for t := range tags {
+		res.Tags = append(res.Tags, t)
+	}
+	sort.Strings(res.Tags)
+	return res, nil
+}
+
 func runCase(c Case) (lib.Result, error) {
+	if len(c.Rpc) > 0 {
+		return runRpcCase(c)
+	}
 	res := lib.Result{ID: c.ID, Hash: lib.Hash(struct {
 		K, F string
 		W, S bool
@@ -439,6 +586,17 @@ func gen(seed uint64, tier string) []interface{} {
 	add(Case{Kind: "abaco", Fault: "prepare", Seed: 1, Ops: []int{}})
 	add(Case{Kind: "lancero", Fault: "runlate", Seed: 1, Ops: []int{1}})
 	add(Case{Kind: "abaco", Fault: "none", Seed: 1, Write: true, Silent: true, Ops: []int{-1}}) // the source ends by itself while writing
+	// histories through the RPC entry points: Stop arriving after the source ended by itself, repeated Stop, restart
+	for _, h := range [][]string{
+		{"start:erroring", "selfend", "stop", "start:erroring"},
+		{"start:erroring", "selfend", "stop", "stop", "start:triangle", "stop"},
+		{"start:erroring", "stop", "start:simpulse", "stop"},
+		{"start:triangle", "stop", "stop", "start:triangle", "stop"},
+		{"start:triangle", "start:simpulse", "stop", "start:simpulse", "stop", "start:erroring", "selfend", "stop"},
+		{"stop", "start:simpulse", "selfend", "stop", "start:erroring", "selfend", "start:triangle", "stop", "start:triangle"},
+	} {
+		add(Case{Rpc: h})
+	}
 	kinds := []string{"triangle", "simpulse", "erroring", "abaco", "lancero"}
 	for _, k := range kinds {
 		for _, f := range faultsOf[k] {
@@ -495,6 +653,29 @@ func gen(seed uint64, tier string) []interface{} {
 			Write:  (k == "triangle" || k == "simpulse") && f == "none" && q.Chance(1, 4),
 			Start2: (k == "triangle" || k == "simpulse") && f == "none" && q.Chance(1, 5)})
 	}
+	nrpc := 30
+	if tier == "thorough" {
+		nrpc = 300
+	}
+	for i := 0; i < nrpc; i++ {
+		q := r.Fork()
+		var h []string
+		for j, n := 0, q.Range(3, 9); j < n; j++ {
+			switch x := q.Intn(10); {
+			case x < 2:
+				h = append(h, "start:triangle")
+			case x < 3:
+				h = append(h, "start:simpulse")
+			case x < 5:
+				h = append(h, "start:erroring")
+			case x < 7:
+				h = append(h, "selfend")
+			default:
+				h = append(h, "stop")
+			}
+		}
+		add(Case{Rpc: h})
+	}
 	if tier == "thorough" {
 		add(Case{Kind: "abacoudp", Fault: "prepare", Seed: 2, Ops: []int{}})
 	}
@@ -529,10 +710,14 @@ func main() {
 					break
 				}
 			}
+			if len(c.Rpc) > 0 {
+				return lib.Result{ID: c.ID, Term: renderRpc(c, rpcOutcome{}, true), Impl: map[string]string{"crash": first},
+					Tags: []string{"crash", "rpc-history"}, Hash: lib.Hash(c)}, nil
+			}
 			return lib.Result{ID: c.ID, Term: render(c, outcome{}, true), Impl: map[string]string{"crash": first},
 				Tags: []string{"crash", "kind:" + c.Kind}, Hash: lib.Hash(c)}, nil
 		},
-		Header:   "From Dastard Require Import Common.ZX Common.CaseLib C10.Conc C10.Model C10.Spec C10.Run.",
+		Header:   "From Dastard Require Import Common.ZX Common.CaseLib C10.Conc C10.Model C10.Spec C10.RpcModel C10.RpcSpec C10.Run.",
 		Verdict:  "verdict",
 		PerShard: 40,
 		Isolate:  true,
